@@ -9,7 +9,7 @@ import os, json
 from lib import vf
 
 MANIFEST = {
- 'text': "Coq theorems over transition-system models of the seven stateful rule visitors (RuleExpression, RuleShellName, RuleShellcheck, RulePyflakes, RuleID, RuleRunnerLabel, RuleJobNeeds; checking functions abstract, state fields and their reads/writes/resets literal): after every job block the per-job fields are back at their initial values from any start state; for every visiting history the per-event diagnostics of a job equal those it gets as the first job after VisitWorkflowPre and depend on the other jobs only through the declarations of the jobs it needs, hence any permutation of the jobs and adding/removing a job nobody needs leave every other job's diagnostics unchanged; a step's diagnostics do not depend on earlier steps without id and RuleExpression keeps of an id-carrying step only the id and its action's outputs type; a model of the type environment threaded through the expression checker (aliasing of the shared matrix type explicit) shows that the current checker returns the environment unchanged and every expression of a sequence gets the verdict it gets alone, while the checker before the fix (checkArrayDeref wrote Deref into the shared array type) is refuted by the witness matrix.x.*.y / matrix.x.y. Tie: state dumps of the real rules after every visitor callback (probe pass inside the real Visitor) against the model, expression sequences on a shared matrix type against the model, both by vm_compute. Oracle on actionlint.Linter: pools of generated jobs, needs-groups and steps linted alone and in all ordered pairs and sampled triples (quadruples in the thorough tier); per part the multiset of (relative line, column, kind, message) must be equal.",
+ 'text': "Coq theorems over transition-system models of the seven stateful rule visitors (RuleExpression, RuleShellName, RuleShellcheck, RulePyflakes, RuleID, RuleRunnerLabel, RuleJobNeeds; checking functions abstract, state fields and their reads/writes/resets literal): after every job block the per-job fields are back at their initial values from any start state; for every visiting history the per-event diagnostics of a job equal those it gets as the first job after VisitWorkflowPre and depend on the other jobs only through the declarations of the jobs it needs, hence any permutation of the jobs and adding/removing a job nobody needs leave every other job's diagnostics unchanged; a step's diagnostics do not depend on earlier steps without id and RuleExpression keeps of an id-carrying step only the id and its action's outputs type; a model of the type environment threaded through the expression checker (aliasing of the shared matrix type explicit) shows that the current checker returns the environment unchanged and every expression of a sequence gets the verdict it gets alone, while the checker before the fix (checkArrayDeref wrote Deref into the shared array type) is refuted by the witness matrix.x.*.y / matrix.x.y. Tie: state dumps of the real rules after every visitor callback (probe pass inside the real Visitor) against the model, expression sequences on a shared matrix type against the model, both by vm_compute. Oracle on actionlint.Linter: pools of generated jobs, needs-groups and steps linted alone and in all ordered pairs and sampled triples (quadruples in the thorough tier); per part the multiset of (relative line, column, kind, message) must be equal. Source gate: the fields of every Rule* struct are re-listed from the .go files on every run and each is proved to be construction data, the diagnostics, a lock or one of the 17 components of the transition system (coq/Wf/RuleFields.v).",
  'note': "Trusted: Coq kernel; the hand-written models (correspondence-checked, not proved equal to the Go code); harness generators, the state dump hook (verif build tag), the message normalisation (cited positions made relative; at step level the echoed steps object is elided because the ids of earlier steps legitimately appear in it). The cyclic-dependency diagnostic is per needs graph (exactly one, only if all references resolve: property C18) and is compared at workflow level. Not modelled: the stateless checking functions (abstract), function calls / comparison / logical operators inside the expression-environment model, local actions and local reusable workflows (file system).",
  'technique': "machine-checked proof in Coq (invariants over visitor event sequences, product of certified rules; purity of the threaded expression checker by induction) + vm_compute correspondence on state traces and expression sequences + composition oracle on the real linter",
 }
